@@ -48,6 +48,11 @@ def build_corpus(tier, rng):
             items.append(("snake-twin", Item("E", vs)))
     # non-ASCII identifiers (with digits after the non-ASCII letter): the slot names are derived from them
     items.append(("non-ascii", Item("E", [Variant("Größe42", "unit"), Variant("É1", "unit", [], [DISABLED]), Variant("变7x", "unit"), Variant("Plain", "unit"), Variant("Öl2", "unit")])))
+    # the enum comes out of a macro_rules! expansion, the VARIANT NAMES handed in as `ident` fragments (other hygiene context than the derive)
+    for j in range(2):
+        mm = Item("E", [Variant("Left", "unit"), Variant("Spare", "unit", [], [DISABLED]), Variant("Middle", "unit", [], [ser("m")]), Variant("Right", "unit")][: 4 - j])
+        mm.via_macro = "idents"
+        items.append(("macro-idents", mm))
     # a field-less enum may still have (defaulted) const parameters: the table is generic over them
     for nc in (1, 2):
         it = Item("E", [Variant("Left", "unit"), Variant("Spare", "unit", [], [DISABLED]), Variant("Middle", "unit"), Variant("Right", "unit", [], [ser("r")])], cparams=nc)
